@@ -266,10 +266,103 @@ func typeName(v interface{}) string {
 	return s
 }
 
+// textual and database forms: the identifier types (and DLSettings, and a
+// whole frame as base64) are also decoded from text and from database values;
+// "decoding into a value that was used before" covers these decoders as well.
+type scanner interface{ Scan(src interface{}) error }
+type textUnmarshaler interface{ UnmarshalText(text []byte) error }
+
+var idTypes = []struct {
+	name string
+	n    int
+	mk   func() interface{}
+}{
+	{"EUI64", 8, func() interface{} { return &lorawan.EUI64{} }},
+	{"DevAddr", 4, func() interface{} { return &lorawan.DevAddr{} }},
+	{"NetID", 3, func() interface{} { return &lorawan.NetID{} }},
+	{"AES128Key", 16, func() interface{} { return &lorawan.AES128Key{} }},
+	{"DLSettings", 1, func() interface{} { return &lorawan.DLSettings{} }},
+}
+
+func reuseTextScan(r *sim.Rand) {
+	t := idTypes[r.Intn(len(idTypes))]
+	simrt.Count(cReuseText)
+	hexOf := func(b []byte) []byte { return []byte(fmt.Sprintf("%x", b)) }
+	used, fresh := t.mk(), t.mk()
+	// first use: a valid value
+	first := r.Bytes(t.n)
+	for i := range first {
+		first[i] |= 1 // (not the zero value)
+	}
+	if quiet(func() { used.(textUnmarshaler).UnmarshalText(hexOf(first)) }) {
+		return
+	}
+	// second decode: the same call on the used and on a fresh value
+	var input interface{}
+	asScan := false
+	if _, ok := used.(scanner); ok && r.Intn(2) == 0 {
+		asScan = true
+		switch r.Intn(5) {
+		case 0:
+			input = nil // a NULL column
+		case 1:
+			input = r.Bytes(t.n)
+		case 2:
+			input = r.Bytes(t.n + 1 - 2*r.Intn(2)) // wrong length
+		case 3:
+			input = string(hexOf(r.Bytes(t.n)))
+		default:
+			input = int64(r.Intn(1 << 20)) // a type no identifier is stored as
+		}
+	} else {
+		switch r.Intn(5) {
+		case 0:
+			input = []byte{}
+		case 1:
+			input = hexOf(r.Bytes(t.n))
+		case 2:
+			input = hexOf(r.Bytes(t.n - 1 + 2*r.Intn(2)))
+		case 3:
+			input = []byte("zz")
+		default:
+			input = append([]byte("0x"), hexOf(r.Bytes(t.n))...)
+		}
+	}
+	call := func(v interface{}) (err error) {
+		if asScan {
+			return v.(scanner).Scan(input)
+		}
+		return v.(textUnmarshaler).UnmarshalText(append([]byte(nil), input.([]byte)...))
+	}
+	var eu, ef error
+	if quiet(func() { eu = call(used) }) || quiet(func() { ef = call(fresh) }) {
+		functional("text-scan:panic")
+		return
+	}
+	form := "UnmarshalText"
+	if asScan {
+		form = "Scan"
+	}
+	if (eu == nil) != (ef == nil) {
+		simrt.Report("reuse.decode:"+t.name+"."+form, fmt.Sprintf("%s.%s(%#v) into a value that held %x returns %v, into a fresh value %v", t.name, form, input, first, eu, ef))
+		return
+	}
+	if ef != nil {
+		return
+	}
+	if su, sf := sim.DeepSig(used), sim.DeepSig(fresh); su != sf {
+		simrt.Report("reuse.decode:"+t.name+"."+form, fmt.Sprintf("%s.%s(%#v) into a value that held %x gives %s, into a fresh value %s", t.name, form, input, first, su, sf))
+	}
+}
+
 // reuseDecode performs one I6 experiment.
 func reuseDecode(r *sim.Rand) {
 	simrt.Count(cReuseOps)
 	simrt.Count(cDirtyObj)
+	if r.Intn(10) == 0 {
+		reuseTextScan(r)
+		return
+	}
 	if r.Intn(10) == 0 {
 		// a MACCommand that carried a payload then decodes a payload-less command
 		up := r.Intn(2) == 0
